@@ -102,7 +102,8 @@ def mclasses(m, acc=None, depth=0):
 class Cursor(object):
     """Executes protocol operations on a real matcher while maintaining the model cursor."""
 
-    def __init__(self, ctx, make, ref, scored, tag=""):
+    def __init__(self, ctx, make, ref, scored, tag="", prefix="c11"):
+        self.prefix = prefix
         self.ctx = ctx
         self.make = make
         self.ref = ref
@@ -114,6 +115,7 @@ class Cursor(object):
         self.tag = tag
         self.top = type(self.m).__name__
         self.bounds = False
+        self.qmax = None
 
     # -- helpers
     def _cls(self):
@@ -123,27 +125,62 @@ class Cursor(object):
         raise ProtocolViolation("%s:%s" % (self._cls(), mech), detail)
 
     def check_position(self, op):
+        """Strict until a quality threshold has been used (self.qmax is None): the matcher must be
+        exactly on ref[i]. After skip_to_quality(q) sub-matchers may legitimately have been moved past
+        postings that cannot reach q, so the stream is a subsequence of the reference that still
+        contains every entry scoring more than the largest threshold used (that is all the top-N
+        collector relies on): entries passed silently must score <= qmax."""
         m, ref, i = self.m, self.ref, self.i
-        self.ctx.count("c11.position_checks")
+        self.ctx.count(self.prefix + ".position_checks")
         act = bool(m.is_active())
-        if act != (i < len(ref)):
-            self.viol("%s:is_active" % op, "is_active=%r but model cursor %d of %d (next expected id %r)" % (
-                act, i, len(ref), ref[i].id if i < len(ref) else None))
-        if act:
-            got = m.id()
-            if got != ref[i].id:
-                self.viol("%s:id" % op, "id=%r expected %r (model cursor %d)" % (got, ref[i].id, i))
+        if self.qmax is None:
+            if act != (i < len(ref)):
+                self.viol("%s:is_active" % op, "is_active=%r but model cursor %d of %d (next expected id %r)" % (
+                    act, i, len(ref), ref[i].id if i < len(ref) else None))
+            if act:
+                got = m.id()
+                if got != ref[i].id:
+                    self.viol("%s:id" % op, "id=%r expected %r (model cursor %d)" % (got, ref[i].id, i))
+            return
+        if not act:
+            j = len(ref)
+        else:
+            nid = m.id()
+            j = i
+            while j < len(ref) and ref[j].id < nid:
+                j += 1
+            if j >= len(ref) or ref[j].id != nid:
+                self.viol("%s:id" % op, "on id %r which is not a remaining reference entry (model cursor %d)" % (nid, i))
+        for e in ref[i:j]:
+            if e.score is not None and e.score > self.qmax + TOL * max(1.0, abs(self.qmax)):
+                self.viol("%s:lost-better-entry" % op, "after quality threshold %r the entry id %r scoring %r is no longer reachable" % (
+                    self.qmax, e.id, e.score))
+        self.i = j
 
     def check_reads(self, op):
         m, i = self.m, self.i
         if i >= len(self.ref):
             return
         exp = self.ref[i]
-        self.ctx.count("c11.read_checks")
+        self.ctx.count(self.prefix + ".read_checks")
+        if (self.qmax is not None and exp.score is not None
+                and exp.score <= self.qmax + TOL * max(1.0, abs(self.qmax))):
+            # an entry that cannot beat a threshold already used may be reported with only part of its
+            # score (a sub-matcher was moved past it); it must not be reported with MORE than its score
+            got = m.score()
+            if got > exp.score + 1e-9 * max(1.0, abs(exp.score)):
+                self.viol("%s:score-inflated" % op, "score=%r > true score %r at id %r (threshold %r)" % (
+                    got, exp.score, exp.id, self.qmax))
+            self.ctx.count(self.prefix + ".degraded_reads_allowed")
+            return
         if self.scored and exp.score is not None:
             got = m.score()
             if not close(got, exp.score):
                 self.viol("%s:score" % op, "score=%r expected %r at id %r" % (got, exp.score, exp.id))
+        if self.qmax is not None and self.qmax > 0:
+            # once a positive quality threshold was used, sub-matchers that cannot contribute may have
+            # been moved on: only ids and scores of the entries that can still win are pinned down
+            return
         if exp.weight is not None:
             try:
                 got = m.weight()
@@ -229,25 +266,21 @@ class Cursor(object):
     def op_skip_to_quality(self, q):
         """C12: never passes an entry scoring more than q; lands on a reference entry."""
         self.trace.append("skip_to_quality(%r)" % q)
+        i0 = self.i
         self.m.skip_to_quality(q)
         self.ctx.count("c12.skip_to_quality_checks")
-        if not self.m.is_active():
-            passed = self.ref[self.i:]
-            self.i = len(self.ref)
+        if q > 0 or self.qmax is not None:
+            self.qmax = q if self.qmax is None else max(self.qmax, q)
+            self.check_position("skip_to_quality")
         else:
-            nid = self.m.id()
-            j = self.i
-            while j < len(self.ref) and self.ref[j].id < nid:
-                j += 1
-            if j >= len(self.ref) or self.ref[j].id != nid:
-                self.viol("skip_to_quality:id", "landed on id %r which is not a remaining reference entry" % nid)
-            passed = self.ref[self.i:j]
-            self.i = j
-        for e in passed:
-            if e.score is not None and e.score > q + TOL * max(1.0, abs(q)):
-                self.viol("skip_to_quality:passed-better-entry",
-                          "skip_to_quality(%r) passed id %r whose score is %r" % (q, e.id, e.score))
-        if passed:
+            # threshold <= 0: entries scoring <= q may be passed, nothing else
+            save = self.qmax
+            self.qmax = q
+            try:
+                self.check_position("skip_to_quality")
+            finally:
+                self.qmax = save
+        if self.i != i0:
             self.ctx.count("c12.skip_to_quality_moved")
 
     def op_replace_q(self, q):
@@ -258,6 +291,7 @@ class Cursor(object):
         self.ctx.count("c12.replace_checks")
         if r is None:
             self.viol("replace", "replace(q) returned None")
+        qeff = q if self.qmax is None else max(q, self.qmax)
         rest = {e.id: e for e in self.ref[self.i:]}
         got = {}
         last = -1
@@ -278,7 +312,7 @@ class Cursor(object):
         for did, e in rest.items():
             if e.score is None:
                 continue
-            better = e.score > q + TOL * max(1.0, abs(q))
+            better = e.score > qeff + TOL * max(1.0, abs(qeff))
             if did not in got:
                 dropped += 1
                 if better:
@@ -294,17 +328,28 @@ class Cursor(object):
         self.m = r
 
     def check_bounds(self):
-        """C12: block_quality() >= score of the current entry; max_quality() >= every remaining score."""
+        """C12: block_quality() >= score of the current entry; max_quality() >= every remaining score.
+        After a quality threshold q was used, entries that cannot beat q may be partially scored, so the
+        bounds have to dominate (a) what the matcher itself reports for the current entry and (b) the
+        true score of every remaining entry that can still beat q."""
         m = self.m
         if not (self.scored and m.is_active() and m.supports_block_quality()):
             return
         self.ctx.count("c12.bound_checks")
         cur = self.ref[self.i]
+        qmax = self.qmax
         bq = m.block_quality()
-        if cur.score is not None and bq < cur.score - TOL * max(1.0, abs(cur.score)):
+        own = m.score()
+
+        def live(e):
+            return e.score is not None and (qmax is None or e.score > qmax + TOL * max(1.0, abs(qmax)))
+        if bq < own - TOL * max(1.0, abs(own)):
+            self.viol("block_quality<score", "block_quality=%r < score()=%r at id %r" % (bq, own, cur.id))
+        if live(cur) and bq < cur.score - TOL * max(1.0, abs(cur.score)):
             self.viol("block_quality<score", "block_quality=%r < score=%r at id %r" % (bq, cur.score, cur.id))
         mq = m.max_quality()
-        rest_max = max(e.score for e in self.ref[self.i:])
+        rest = [e.score for e in self.ref[self.i:] if live(e)] + [own]
+        rest_max = max(rest)
         if mq < rest_max - TOL * max(1.0, abs(rest_max)):
             self.viol("max_quality<remaining-score", "max_quality=%r < a remaining score %r (at id %r, cursor %d)" % (
                 mq, rest_max, cur.id, self.i))
@@ -342,6 +387,45 @@ def gen_program(rng, ref, allow_quality, allow_reset=True, length=(4, 14)):
     return prog
 
 
+def gen_quality_program(rng, ref, length=(3, 10)):
+    """Program for C12: protocol moves interleaved with skip_to_quality(q) for thresholds at, below and
+    above remaining scores, optionally ending with replace(q) (which consumes the matcher)."""
+    ids = [e.id for e in ref]
+    scores = sorted(set(e.score for e in ref if e.score is not None))
+    maxid = ids[-1] if ids else 0
+
+    def threshold():
+        r = rng.random()
+        if not scores or r < 0.15:
+            return 0
+        if r < 0.25:
+            return -1.5
+        if r < 0.65:
+            return rng.choice(scores)
+        if r < 0.8:
+            return rng.choice(scores) * rng.choice([0.999, 1.001])
+        if r < 0.9:
+            return (scores[0] + scores[-1]) / 2.0
+        return scores[-1] * 2 + 1
+    prog = []
+    for _ in range(rng.randint(*length)):
+        r = rng.random()
+        if r < 0.3:
+            prog.append(("next",))
+        elif r < 0.45:
+            t = (rng.choice(ids) + rng.choice([-1, 0, 1])) if ids else rng.randint(0, maxid + 2)
+            prog.append(("skip_to", max(0, t)))
+        elif r < 0.8:
+            prog.append(("skip_to_quality", threshold()))
+        elif r < 0.88:
+            prog.append(("replace0",))
+        else:
+            prog.append(("bounds",))
+    if rng.random() < 0.6:
+        prog.append(("replace_q", threshold()))
+    return prog
+
+
 def run_program(cur, prog):
     """Execute prog on Cursor cur; raises ProtocolViolation."""
     cur.check_position("fresh")
@@ -370,7 +454,9 @@ def run_program(cur, prog):
             if active and cur.scored and cur.m.supports_block_quality():
                 cur.op_skip_to_quality(op[1])
         elif kind == "replace_q":
-            if cur.scored:
+            # thresholds are only meaningful for matchers that report quality support (C12 statement;
+            # the collectors pass a threshold to replace() only then)
+            if cur.scored and cur.m.supports_block_quality():
                 cur.op_replace_q(op[1])
                 return
         elif kind == "bounds":
